@@ -172,6 +172,10 @@ def worker(shard: dict) -> dict:
                     judge(gtexts.mutate_token(r2, t), "token_mutant", oracle, acc, vk)
             if i < 2:
                 acc.sample({"source": src, "text": t[:300]})
+    elif kind == "escapes":
+        rnd = random.Random(shard["seed"])
+        for i in range(shard["count"]):
+            judge(gtexts.escape_text(rnd), "escape_form", oracle, acc, vk)
     elif kind == "bundled":
         with open(shard["file"], encoding="utf-8") as fd:
             t = fd.read()
@@ -204,6 +208,8 @@ def main(tier: str, seed: int) -> int:
     for f in bundled_files():
         shards.append({"kind": "bundled", "file": f, "seed": seed_int("C10", seed, f), "mutants": run.pick(60, 400)})
     shards.append({"kind": "facts", "seed": 0})
+    for j in range(8):
+        shards.append({"kind": "escapes", "seed": seed_int("C10", seed, "esc", j), "count": run.pick(500, 8000)})
     run_workers("pv.checks.c10", "worker", shards, timeout_s=run.pick(900, 7200), acc=run.acc)
     # keep the shortest witnesses per kind
     vs = sorted(run.acc.violations, key=lambda v: len(v.get("text", "")))
